@@ -213,6 +213,23 @@ def run(ctx):
                 if r.cls == '0' and not there:
                     ctx.violation(f'block-device-{driver}-{shape}.json', dict(argv=argv, exit=r.cls, stderr=r.stderr[-300:]),
                                   f'C04: a block device among the sources ({shape}) was not copied and xcp exited 0')
+        # ---- --glob as an unprivileged user: one of the directories the pattern has to LIST cannot be read (EACCES): the
+        # expansion is incomplete — a failure to report, not a smaller set of sources
+        import subprocess
+        for driver in ('parfile', 'parblock'):
+            u = base + '/glob'; subprocess.run(f'chmod -R u+rwx {u} 2>/dev/null; rm -rf {u}', shell=True)
+            for dd in ('pub', 'priv', 'other'):
+                os.makedirs(f'{u}/S/{dd}'); open(f'{u}/S/{dd}/{dd}.txt', 'w').write(dd)
+            os.makedirs(u + '/D')
+            subprocess.run(f'chown -R 61234:61234 {u}', shell=True)
+            os.chown(u + '/S/priv', 0, 0); os.chmod(u + '/S/priv', 0o700)
+            argv = ['--glob', '--driver', driver, 'S/*/*.txt', 'D']
+            r = scen.run_xcp(u, argv, ids=(61234, 61234, []), timeout=30)
+            ctx.count(f'glob_unlistable.exit.{r.cls}'); ctx.case(('glob-unlistable', driver), True)
+            if r.cls == '0':
+                ctx.violation(f'glob-unlistable-{driver}.json', dict(argv=argv, exit=r.cls, copied=sorted(os.listdir(u + '/D')), stderr=r.stderr[-300:]),
+                              f'C04: a directory the glob pattern must list is unreadable, yet xcp exited 0 having copied {sorted(os.listdir(u + "/D"))}')
+            subprocess.run(f'chmod -R u+rwx {u} 2>/dev/null; rm -rf {u}', shell=True)
     ctx.cov['sites_where_a_fault_fired'] = sites_hit
     ctx.cov['rule'] = ('a block device among the sources (in a tree, as sole source); a tree with files (one multi-block), a nested directory, a link and a fifo, copied fresh / over an existing copy (thorough: into a directory, with --ownership), --fsync; '
                        'for every call of the unfaulted trace that is a step: one run per errno (quick: 2 random of 7) with that call failing; plus the destination probe; thorough adds pairs. '
